@@ -194,7 +194,7 @@ def request(draw, obfuscate=True, allow_body=True):
     headers = []
     if draw(st.booleans()):
         headers.append(("Host", "example.com"))
-    plan = draw(st.integers(0, 11)) if allow_body else 0
+    plan = draw(st.integers(0, 13)) if allow_body else 0
     data = draw(body_bytes()) if plan else ""
     body = ""
     # plans: 0 none | 1-3 CL | 4-6 chunked | 7 CL+TE | 8 dup CL | 9 TE twice | 10 CL mismatch | 11 framing header in odd place
@@ -224,6 +224,14 @@ def request(draw, obfuscate=True, allow_body=True):
         n2 = draw(st.integers(0, len(data) + 5))
         headers.append(("Content-Length", str(n2)))
         body = data
+    elif plan in (12, 13):
+        # a transfer coding other than chunked, the client insisting on keep-alive, and a body that looks like a request
+        te = draw(st.sampled_from(["gzip", "deflate", "compress", "gzip, deflate", "identity", "GZIP", "x-gzip"]))
+        headers.append((header_name(draw, "Transfer-Encoding", odd(12)), te))
+        if draw(st.booleans()):
+            headers.append(("Content-Length", str(len(data))))
+        headers.append(("Connection", draw(st.sampled_from(["keep-alive", "Keep-Alive", "keep-alive, x"]))))
+        body = data if draw(st.booleans()) else SMUGGLED
     elif plan == 11:
         headers.append(("X-Pad", "Content-Length: 3"))
         headers.append((header_name(draw, draw(st.sampled_from(["Content-Length", "Transfer-Encoding"])), True),
